@@ -7,8 +7,8 @@ from reduce_check import ReduceBase
 
 class Check(ReduceBase):
     id = 'C01'
-    props = ['Tables.v', 'C01.v', 'C01Structs.v']
-    static_targets = ReduceBase.static_targets + ['theories/Lemmas/Sound.vo', 'theories/Lemmas/ReduceStructsL.vo']
+    props = ['Tables.v', 'C01.v', 'C01Structs.v', 'C01Total.v']
+    static_targets = ReduceBase.static_targets + ['theories/Lemmas/Sound.vo', 'theories/Lemmas/ReduceStructsL.vo', 'theories/Lemmas/ReduceTotalL.vo']
     trusted = ReduceBase.trusted_common
 
     def comparable(self, case, obs):
